@@ -97,6 +97,9 @@ func (x *Exec) sprintf(f string, args []Value) Str {
 		switch verb {
 		case 'v', 's', 'd':
 			out = append(out, x.formatV(arg, verb).B...)
+		case 'U', 'x', 'X', 'c':
+			out = append(out, x.ts.StrOf("?").B...)
+			_ = arg
 		case 'T':
 			it := x.asIface(arg)
 			out = append(out, x.ts.StrOf(typeStr(it.T)).B...)
